@@ -125,7 +125,7 @@ class UMNDirHandler(DirHandler):
                 self.fileentries.append(linkentry)
                 continue
             if linkentry.selector in fileentriesdict:
-                if linkentry.gettype() == "X":
+                if linkentry.gettype() == "X" or linkentry.gettype() == "-":
                     # It's special code to hide something.
                     self.fileentries.remove(fileentriesdict[linkentry.selector])
                 else:
